@@ -44,8 +44,15 @@ def tree_sexp(t):
 def impl_translate(rate):
     reset_globals()
     KROMEReaction.initialize()
-    r = KROMEReaction("1,H,H,,H2,,,,10,1e4,1.0e-10")
-    r.rate_string = rate.replace("dexp", "exp")
+    if "," in rate:
+        # a rate with a comma cannot be written into a KROME line: set it on the object as the reader would
+        r = KROMEReaction("1,H,H,,H2,,,,10,1e4,1.0e-10")
+        r.rate_string = rate.replace("dexp", "exp")
+    else:
+        try:
+            r = KROMEReaction("1,H,H,,H2,,,,10,1e4," + rate)       # through the reader of a reaction line
+        except Exception as e:
+            return None, None, f"{type(e).__name__}"
     try:
         out = r.rateexpr()
     except Exception as e:
@@ -55,7 +62,8 @@ def impl_translate(rate):
 
 def f_eval(src, env, ab):
     s = re.sub(r"(\d\.?\d*)[dD]([+-]?\d+)", r"\1e\2", src).replace("dexp", "exp").replace("Hnuclei", "nH")
-    ns = {"exp": math.exp, "sqrt": math.sqrt, "log": math.log, "log10": math.log10, "abs": abs, "min": min, "max": max, "__builtins__": {}}
+    ns = {"exp": math.exp, "sqrt": math.sqrt, "log": math.log, "log10": math.log10, "abs": abs, "min": min, "max": max, "__builtins__": {},
+          "atan": math.atan, "asin": math.asin, "acos": math.acos, "sin": math.sin, "cos": math.cos, "tan": math.tan}
     ns.update(env)
 
     class IdxNS(dict):
@@ -71,7 +79,8 @@ def f_eval(src, env, ab):
 def c_eval(out, env, ab):
     """value of the emitted C expression with C arithmetic: int/int truncates, libm functions return double"""
     import ast
-    fns = {"exp": math.exp, "sqrt": math.sqrt, "log": math.log, "log10": math.log10, "abs": abs, "fabs": lambda x: abs(float(x)),
+    fns = {"atan": math.atan, "asin": math.asin, "acos": math.acos, "sin": math.sin, "cos": math.cos, "tan": math.tan,
+           "exp": math.exp, "sqrt": math.sqrt, "log": math.log, "log10": math.log10, "abs": abs, "fabs": lambda x: abs(float(x)),
            "pow": lambda a, b: float(a) ** float(b), "min": min, "max": max}
 
     def ev(n):
@@ -196,7 +205,10 @@ def gen_expr(rng, depth, allow_findings=False):
             ex = ex + "**" + rng.choice(["2", "0.5"])
         return base + "**" + ex
     if k < 0.85:
-        return rng.choice(["exp", "sqrt", "log", "exp", "dexp"]) + "(" + rng.choice(["", "-2.0*", "-1.5e2*"]) + gen_expr(rng, depth - 1, allow_findings) + ")"
+        fn = rng.choice(["exp", "sqrt", "log", "exp", "dexp", "log10", "atan", "sin", "cos", "tan", "asin", "acos", "abs"])
+        if fn in ("asin", "acos"):
+            return fn + "(invT/(invT+" + gen_expr(rng, 0, allow_findings) + "))" if False else fn + "(0.25*invT/(invT+1.0))"
+        return fn + "(" + rng.choice(["", "-2.0*", "-1.5e2*"]) + gen_expr(rng, depth - 1, allow_findings) + ")"
     return "(" + gen_expr(rng, depth - 1, allow_findings) + ")"
 
 
@@ -301,6 +313,9 @@ def run(res, info):
     # an identifier followed by a signed number next to a power (fixed: b5a9883; the grammar read 'Te+2.5' as one identifier)
     for s in ["Te+2.5**2*T32-1.0", "user_crate+2.5d-9**2.0e0 * n(idx_E)-(user_Av-invT)", "invT/invTe*user_Av*Tgas-10.526d2**(1.0d2) * exp(-2.0*lnTe)",
               "Tgas**Te+2.5", "Tgas-2.0**3-Te", "lnTe-1.5e2**2*Te-1.0"]:
+        check_rate(res, model, s, ("fixed", s), rng)
+    # intrinsics that have the same name in Fortran and C must pass through unchanged
+    for s in ["2.0d-10*atan(Tgas/1.0d2)", "1.0d-9*asin(0.5d0)*acos(0.25d0)", "sin(invT)*cos(invT)+tan(invT)", "log10(Tgas)*dexp(-invT)", "abs(-Tgas)"]:
         check_rate(res, model, s, ("fixed", s), rng)
     for s in ["Tgas/(Te/T32)", "1.d-9/(Tgas/3.d2)", "Tgas-(Te-T32)", "Tgas/(exp(Te)/T32)", "sqrt(Tgas/(Te/T32))", "Tgas/(n(idx_H)/Te)"]:
         check_rate(res, model, s, ("fixed", s), rng)
